@@ -251,6 +251,16 @@ pub mod verif_std {
             !r ==> exists|i: int| 0 <= i < v@.len() && call_ensures(f, (&#[trigger] v@[i],), false),
     { v.iter().all(f) }
 
+    // R10 (position): index of the first element the closure accepts, stated over the closure's own contract
+    #[verifier::external_body]
+    pub fn verif_position<T, F: Fn(&T) -> bool>(v: &[T], f: F) -> (r: Option<usize>)
+        requires forall|i: int| 0 <= i < v@.len() ==> call_requires(f, (&#[trigger] v@[i],))
+        ensures
+            r is Some ==> r->Some_0 < v@.len() && call_ensures(f, (&v@[r->Some_0 as int],), true)
+                && forall|i: int| 0 <= i < r->Some_0 ==> call_ensures(f, (&#[trigger] v@[i],), false),
+            r is None ==> forall|i: int| 0 <= i < v@.len() ==> call_ensures(f, (&#[trigger] v@[i],), false),
+    { v.iter().position(f) }
+
     pub uninterp spec fn arr_ref_of<'a, const N: usize>(s: &'a [u8]) -> &'a [u8; N];
     pub broadcast axiom fn arr_ref_of_view<'a, const N: usize>(s: &'a [u8])
         ensures s@.len() == N ==> (#[trigger] arr_ref_of::<N>(s))@ == s@;
